@@ -23,7 +23,7 @@ var c07Factors = []c07Factor{
 	{"managed", []string{"managed", "unmanaged"}},
 	{"stage", []string{"initialized", "registered"}},
 	{"deleting", []string{"no", "nodeclaim-deleting", "marked-for-deletion"}},
-	{"nominated", []string{"no", "window-open", "window-expired"}},
+	{"nominated", []string{"no", "window-open", "window-expired", "renominated-window-still-open"}},
 	{"node-annotation", []string{"none", "do-not-disrupt"}},
 	{"pod-protection", []string{"none", "dnd-true", "dnd-duration-active", "dnd-duration-expired", "dnd-without-start-time", "dnd-on-succeeded-pod", "dnd-on-terminating-pod", "pdb-blocked", "two-pdbs", "two-pdbs-both-allowing"}},
 	{"consolidatable", []string{"true", "false", "absent"}},
@@ -132,6 +132,8 @@ func (c c07Case) world() dWorld {
 		a.nominated = "open"
 	case "window-expired":
 		a.nominated = "expired"
+	case "renominated-window-still-open":
+		a.nominated = "renominated"
 	}
 	b := dNode{name: "b", pool: "default", typ: "m", zone: "a", ct: "on-demand", pods: []dPod{{name: "p2", cpu: 500}}}
 	return dWorld{catalog: K1, pools: []*v1.NodePool{np}, nodes: []dNode{a, b}}
@@ -148,7 +150,7 @@ func (c c07Case) mustNotSelect(m string) (bool, string) {
 	add(c.val("managed") == "unmanaged", "unmanaged")
 	add(c.val("stage") != "initialized", "uninitialized")
 	add(c.val("deleting") != "no", "deleting / marked for deletion")
-	add(c.val("nominated") == "window-open", "recently nominated")
+	add(c.val("nominated") == "window-open" || c.val("nominated") == "renominated-window-still-open", "recently nominated")
 	add(c.val("node-annotation") == "do-not-disrupt", "node do-not-disrupt")
 	podBlocked := false
 	switch c.val("pod-protection") {
